@@ -31,11 +31,8 @@ Fixpoint leaf_ids (e : sexpr) : list nat :=
   | _ => []
   end.
 
-(* completed or absent: shallow *)
-Definition inert (st : ost) : Prop :=
-  match st with OFin => True | OLeaf true _ => True | OCompl _ _ => True | _ => False end.
-
-(* completed or absent: deep (no live operation anywhere inside) *)
+(* completed or absent: deep (no live operation anywhere inside).  [stage 5] a completed allocate keeps its
+   ONode (the destructor needs the allocator stored in it) *)
 Fixpoint done_st (e : sexpr) (st : ost) {struct e} : Prop :=
   match e, st with
   | _, OFin => True
@@ -43,9 +40,30 @@ Fixpoint done_st (e : sexpr) (st : ost) {struct e} : Prop :=
   | LeafN _, OLeaf true _ => True
   | Sched _ _, OLeaf true _ => True
   | LeafR _ _, OLeaf true _ => True
+  | Un UAllocate s, ONode _ sc OFin => done_st s sc
   | Un _ s, OCompl sc OFin => done_st s sc
   | Bin _ a b, OCompl sa sb => done_st a sa /\ done_st b sb
   | _, _ => False
+  end.
+
+(* completed or absent: shallow for the shapes that say so themselves; an ONode only if it is a completed allocate *)
+Definition inert (e : sexpr) (st : ost) : Prop :=
+  match st with
+  | OFin => True
+  | OLeaf true _ => True
+  | OCompl _ _ => True
+  | ONode _ _ _ => done_st e st
+  | _ => False
+  end.
+
+(* equal up to the node state of completed allocates (a stop request still records itself in it; the
+   allocator is kept) *)
+Fixpoint sim (e : sexpr) (st st' : ost) {struct e} : Prop :=
+  st = st' \/
+  match e, st, st' with
+  | Un UAllocate s, ONode ns sc OFin, ONode ns' sc' OFin =>
+      e_alloc (n_env ns) = e_alloc (n_env ns') /\ sim s sc sc'
+  | _, _, _ => False
   end.
 
 (* the state of a started operation of [e] that has not completed *)
@@ -97,32 +115,86 @@ Definition good2 (e : sexpr) (r : res) : Prop :=
 (* ------------------------------------------------------------------------------------------------ *)
 
 Lemma done_fin : forall e, done_st e OFin.
-Proof. destruct e; simpl; exact I. Qed.
+Proof. destruct e as [v|x| |n|id|id|id c|id lvl| |id|k s|k a b]; simpl; try exact I. destruct k; exact I. Qed.
 
 Lemma wf2_not_fin : forall e, ~ wf2 e OFin.
 Proof. destruct e; simpl; auto. Qed.
 
-Lemma done_inert : forall e st, done_st e st -> inert st.
-Proof. destruct e; destruct st as [|[|] ?| | |]; simpl; auto. Qed.
-
-Lemma wf2_not_inert : forall e st, wf2 e st -> ~ inert st.
-Proof. destruct e; destruct st as [|[|] ?| | |]; simpl; auto. Qed.
+Lemma done_inert : forall e st, done_st e st -> inert e st.
+Proof.
+  destruct e as [v|x| |n|id|id|id c|id lvl| |id|k s|k a b]; destruct st as [|[|] ?| | |]; simpl; auto;
+    destruct k; auto.
+Qed.
 
 Lemma wf2_not_done : forall e st, wf2 e st -> ~ done_st e st.
-Proof. intros e st H D. exact (wf2_not_inert e st H (done_inert e st D)). Qed.
+Proof.
+  induction e as [v|x| |n|id|id|id c|id lvl| |id|k s IHs|k a IHa b IHb]; intros st H D;
+    destruct st as [|[|] ?|ns sa sb|sa sb|v']; simpl in *; try contradiction.
+  destruct sb; try contradiction. destruct k; try contradiction. exact (IHs _ H D).
+Qed.
 
-(* silent after completion, state level *)
-Lemma stop_inert : forall e st cx, inert st -> stop e st cx = (st, [], None).
-Proof. destruct e; destruct st as [|[|] [|]| | |]; simpl; intros; try contradiction; reflexivity. Qed.
+Lemma wf2_not_inert : forall e st, wf2 e st -> ~ inert e st.
+Proof.
+  intros e st H I. destruct st as [|[|] ?|ns sa sb|sa sb|v']; simpl in I; try contradiction;
+    try (destruct e; simpl in H; contradiction).
+  exact (wf2_not_done _ _ H I).
+Qed.
 
-Lemma leafev_inert : forall e st id o cx, inert st -> leafev e st id o cx = ((st, [], None), false).
-Proof. destruct e; destruct st as [|[|] [|]| | |]; simpl; intros; try contradiction; reflexivity. Qed.
+Lemma sim_refl : forall e st, sim e st st.
+Proof. destruct e; simpl; auto. Qed.
 
-Lemma pending_inert : forall e st, inert st -> pending e st = [].
-Proof. destruct e; destruct st as [|[|] [|]| | |]; simpl; intros; try contradiction; reflexivity. Qed.
+Lemma sim_done : forall e st st', sim e st st' -> done_st e st -> done_st e st'.
+Proof.
+  induction e as [v|x| |n|id|id|id c|id lvl| |id|k s IHs|k a IHa b IHb]; intros st st' [->|S] D; auto;
+    simpl in S; try contradiction.
+  destruct k; try contradiction. destruct st as [| |ns sc sx| |]; try contradiction.
+  destruct sx; try contradiction. destruct st' as [| |ns' sc' sx'| |]; try contradiction.
+  destruct sx'; try contradiction. destruct S as (_ & S). simpl in *. exact (IHs _ _ S D).
+Qed.
 
-Lemma stop_done : forall e st cx, done_st e st -> stop e st cx = (st, [], None).
-Proof. intros. apply stop_inert. eapply done_inert; eauto. Qed.
+Lemma sim_dtor : forall e st st', sim e st st' -> dtor e st' = dtor e st.
+Proof.
+  induction e as [v|x| |n|id|id|id c|id lvl| |id|k s IHs|k a IHa b IHb]; intros st st' [->|S]; auto;
+    simpl in S; try contradiction.
+  destruct k; try contradiction. destruct st as [| |ns sc sx| |]; try contradiction.
+  destruct sx; try contradiction. destruct st' as [| |ns' sc' sx'| |]; try contradiction.
+  destruct sx'; try contradiction. destruct S as (E & S). simpl. rewrite (IHs _ _ S), E. reflexivity.
+Qed.
+
+(* silent after completion, state level: a completed or absent operation state does not react to a stop
+   request or a leaf event (a completed allocate records the stop request in its node state: [sim]) *)
+Lemma stop_inert : forall e st cx, inert e st -> exists st', stop e st cx = (st', [], None) /\ sim e st st'.
+Proof.
+  induction e as [v|x| |n|id|id|id c|id lvl| |id|k s IHs|k a IHa b IHb]; intros st cx H;
+    destruct st as [|[|] [|]|ns sa sb|sa sb|v']; simpl in H; try contradiction;
+    try (eexists; split; [reflexivity|left; reflexivity]).
+  destruct k; try contradiction. destruct sb; try contradiction.
+  destruct (IHs sa cx (done_inert _ _ H)) as (sa' & E & S). simpl. rewrite E.
+  eexists; split; [reflexivity|]. right. simpl. split; [reflexivity|exact S].
+Qed.
+
+Lemma leafev_inert : forall e st id o cx, inert e st -> leafev e st id o cx = ((st, [], None), false).
+Proof.
+  induction e as [v|x| |n|id|id|id c|id lvl| |id|k s IHs|k a IHa b IHb]; intros st id0 o cx H;
+    destruct st as [|[|] [|]|ns sa sb|sa sb|v']; simpl in H; try contradiction; try reflexivity.
+  destruct k; try contradiction. destruct sb; try contradiction.
+  simpl. rewrite (IHs sa id0 (un_in UAllocate o) cx (done_inert _ _ H)). reflexivity.
+Qed.
+
+Lemma pending_inert : forall e st, inert e st -> pending e st = [].
+Proof.
+  induction e as [v|x| |n|id|id|id c|id lvl| |id|k s IHs|k a IHa b IHb]; intros st H;
+    destruct st as [|[|] [|]|ns sa sb|sa sb|v']; simpl in H; try contradiction; try reflexivity.
+  destruct k; try contradiction. destruct sb; try contradiction.
+  simpl. apply IHs. apply done_inert. exact H.
+Qed.
+
+Lemma stop_done : forall e st cx, done_st e st ->
+  exists st', stop e st cx = (st', [], None) /\ sim e st st' /\ done_st e st'.
+Proof.
+  intros e st cx D. destruct (stop_inert e st cx (done_inert _ _ D)) as (st' & E & S).
+  exists st'. split; [exact E|]. split; [exact S|]. eapply sim_done; eauto.
+Qed.
 
 Lemma leafev_done : forall e st id o cx, done_st e st -> leafev e st id o cx = ((st, [], None), false).
 Proof. intros. apply leafev_inert. eapply done_inert; eauto. Qed.
@@ -131,10 +203,10 @@ Lemma pending_done : forall e st, done_st e st -> pending e st = [].
 Proof. intros. apply pending_inert. eapply done_inert; eauto. Qed.
 
 Lemma stop_fin : forall e cx, stop e OFin cx = (OFin, [], None).
-Proof. intros. apply stop_inert. exact I. Qed.
+Proof. destruct e; reflexivity. Qed.
 
 Lemma leafev_fin : forall e id o cx, leafev e OFin id o cx = ((OFin, [], None), false).
-Proof. intros. apply leafev_inert. exact I. Qed.
+Proof. destruct e; reflexivity. Qed.
 
 (* the bookkeeping of a concurrent node when child [i] completes *)
 Lemma ccd_spec : forall k ns i o ns' nw fin,
@@ -155,9 +227,14 @@ Qed.
 (* The helper functions that assemble a result                                                      *)
 (* ------------------------------------------------------------------------------------------------ *)
 
+Lemma done_un_compl : forall k s sc, done_st s sc -> done_st (Un k s) (OCompl sc OFin).
+Proof. intros k s sc H. destruct k; exact H. Qed.
+
 Lemma un_done_good : forall k s sc tr o, done_st s sc -> good2 (Un k s) (un_done k s sc tr o).
 Proof.
-  intros. unfold un_done. destruct (un_result k o). destruct (un_eager k o); simpl; auto.
+  intros. unfold un_done. destruct (un_result k o). destruct (un_eager k o); unfold good2.
+  - apply done_fin.
+  - apply done_un_compl. assumption.
 Qed.
 
 Lemma seq_pass_good : forall k a b sa tr o, done_st a sa -> good2 (Bin k a b) (seq_pass k a sa tr o).
@@ -194,9 +271,9 @@ Lemma rep_loop_good : forall s r0 rest i, good2 s r0 ->
   end.
 Proof.
   intros s [[sc tr] r] rest. induction rest as [|x rest IH]; intros i G; simpl.
-  - intros k. exact I.
-  - destruct x; [intros k; exact I|].
-    destruct r as [[v|x| |v|v]|]; simpl in G; try (intros k; simpl; exact G); try exact G.
+  - intros k. destruct k; exact I.
+  - destruct x; [intros k; destruct k; exact I|].
+    destruct r as [[v|x| |v|v]|]; unfold good2 in G; try (intros k; destruct k; exact G); try exact G.
     specialize (IH (S i) G). destruct (rep_loop s (sc, tr, Some (OVal v)) rest (S i)) as [i' [[sc' tr'] r']].
     exact IH.
 Qed.
@@ -307,7 +384,7 @@ Arguments good2 e r : simpl never.
    the end of the section) *)
 Opaque conc_child_done un_result after_first after_second is_seq un_done seq_pass seq_final conc_reap
        finish_conc rep_done retry_a_done retry_b_done un_own un_nst un_env fired res_err dtor
-       thrown un_in bin_in tmode un_throw bin_throw un_catch bin_catch.
+       thrown un_in bin_in tmode un_throw bin_throw un_catch bin_catch sthrows sconn un_pre.
 
 (* the term the outermost match of [t] is blocked on *)
 Ltac head_scrut t :=
@@ -375,6 +452,7 @@ Ltac step_on x :=
       destruct (thrown_some s t oc) as [E|(? & ? & E)]; [rewrite E|subst; rewrite E]
   | un_throw _ => destruct x
   | bin_throw _ _ => destruct x
+  | sthrows _ => destruct x
   | after_first _ _ _ => destruct x as [?|[? ?]]
   | un_result _ _ => destruct x as [? ?]
   | own_stop _ => destruct x eqn:?
@@ -392,7 +470,8 @@ Ltac step :=
 Ltac finish_good :=
   simpl; rw_flags; simpl;
   first
-    [ apply un_done_good; solve [auto]
+    [ solve [unfold good2; apply done_fin]
+    | apply un_done_good; solve [auto]
     | apply rep_done_good; solve [auto]
     | apply seq_pass_good; solve [auto]
     | apply seq_final_good; solve [auto]
@@ -413,38 +492,40 @@ Lemma spec_all : forall e,
   (forall st cx, wf2 e st -> good2 e (stop e st cx)) /\
   (forall st id o cx, wf2 e st -> good2 e (fst (leafev e st id o cx))).
 Proof.
-  induction e as [v|x| |n|id|id|id c|id lvl| |k s IHs|k a IHa b IHb].
-  - repeat split; intros; unfold good2; simpl in *; auto; contradiction.
-  - repeat split; intros; unfold good2; simpl in *; auto; contradiction.
-  - repeat split; intros; unfold good2; simpl in *; auto; contradiction.
-  - repeat split; intros; unfold good2; simpl in *; auto; contradiction.
+  induction e as [v|x| |n|id|id|id c|id lvl| |id|k s IHs|k a IHa b IHb].
+  - repeat split; intros; unfold good2; simpl in *; try destruct (sthrows _); simpl; auto; contradiction.
+  - repeat split; intros; unfold good2; simpl in *; try destruct (sthrows _); simpl; auto; contradiction.
+  - repeat split; intros; unfold good2; simpl in *; try destruct (sthrows _); simpl; auto; contradiction.
+  - repeat split; intros; unfold good2; simpl in *; try destruct (sthrows _); simpl; auto; contradiction.
   - (* Leaf *)
     repeat split.
-    + intros en cx. unfold good2. simpl. destruct (e_stopped en); simpl; auto.
+    + intros en cx. unfold good2. simpl. destruct (sthrows _); simpl; [exact I|]. destruct (e_stopped en); simpl; auto.
     + intros st cx H. unfold good2. destruct st as [|[|] [|]| | |]; simpl in *; auto; contradiction.
     + intros st id0 o cx H. unfold good2. destruct st as [|[|] sn| | |]; simpl in *; try contradiction.
       destruct (Nat.eqb id0 id); simpl; auto.
   - (* LeafN *)
     repeat split.
-    + intros en cx. unfold good2. simpl. destruct (e_stopped en); simpl; auto.
+    + intros en cx. unfold good2. simpl. destruct (sthrows _); simpl; [exact I|]. destruct (e_stopped en); simpl; auto.
     + intros st cx H. unfold good2. destruct st as [|[|] [|]| | |]; simpl in *; auto; contradiction.
     + intros st id0 o cx H. unfold good2. destruct st as [|[|] [|]| | |]; simpl in *; try contradiction.
       destruct (Nat.eqb id0 id); simpl; auto.
   - (* Sched *)
     split; [|split].
-    + intros en cx. unfold good2. simpl. destruct (e_stopped en); simpl; auto.
+    + intros en cx. unfold good2. simpl. destruct (sthrows _); simpl; [exact I|]. destruct (e_stopped en); simpl; auto.
     + intros st cx H. unfold good2. destruct st as [|[|] [|]| | |]; simpl in *; auto; contradiction.
     + intros st id0 o cx H. unfold good2. destruct st as [|[|] sn| | |]; simpl in *; try contradiction.
       destruct (Nat.eqb id0 id); simpl; auto.
   - (* LeafR *)
     repeat split.
-    + intros en cx. unfold good2. simpl. destruct (e_stopped en); simpl; auto.
+    + intros en cx. unfold good2. simpl. destruct (sthrows _); simpl; [exact I|]. destruct (e_stopped en); simpl; auto.
     + intros st cx H. unfold good2. destruct st as [|[|] [|]| | |]; simpl in *; auto; contradiction.
     + intros st id0 o cx H. unfold good2. destruct st as [|[|] sn| | |]; simpl in *; try contradiction.
       * destruct (Nat.eqb id0 id); simpl; auto. destruct o; simpl; auto.
       * destruct (Nat.eqb id0 id); simpl; auto.
   - (* StopIf *)
-    repeat split; intros; unfold good2; simpl in *; auto; contradiction.
+    repeat split; intros; unfold good2; simpl in *; try destruct (sthrows _); simpl; auto; contradiction.
+  - (* LeafC *)
+    repeat split; intros; unfold good2; simpl in *; try destruct (sthrows _); simpl; auto; contradiction.
   - (* Un *)
     destruct IHs as (IH1 & IH2 & IH3). repeat split.
     + intros en cx. repeat step; finish_good.
@@ -517,7 +598,7 @@ Ltac finish_hit :=
 
 Lemma hit_iff : forall e st id o cx, wf2 e st -> hit_ok e st id (leafev e st id o cx).
 Proof.
-  induction e as [v|x| |n|id|id|id c|id lvl| |k s IHs|k a IHa b IHb]; intros st id0 o cx H; simpl in H;
+  induction e as [v|x| |n|id|id|id c|id lvl| |id|k s IHs|k a IHa b IHb]; intros st id0 o cx H; simpl in H;
     try contradiction.
   - destruct st as [|[|] sn| | |]; simpl in *; try contradiction.
     unfold hit_ok. destruct (Nat.eqb id0 id) eqn:E; simpl.
@@ -581,13 +662,13 @@ Proof. vm_compute. split; reflexivity. Qed.
 
 Transparent conc_child_done un_result after_first after_second is_seq un_done seq_pass seq_final conc_reap
        finish_conc rep_done retry_a_done retry_b_done un_own un_nst un_env fired res_err dtor
-       thrown un_in bin_in tmode un_throw bin_throw un_catch bin_catch.
+       thrown un_in bin_in tmode un_throw bin_throw un_catch bin_catch sthrows sconn un_pre.
 Arguments good2 e r : simpl nomatch.
 
 (* no lost completion, state level: a live operation waits for something that can still happen *)
 Lemma no_lost2 : forall e st, wf2 e st -> pending e st <> [].
 Proof.
-  induction e as [v|x| |n|id|id|id c|id lvl| |k s IHs|k a IHa b IHb]; intros st H; simpl in H; try contradiction.
+  induction e as [v|x| |n|id|id|id c|id lvl| |id|k s IHs|k a IHa b IHb]; intros st H; simpl in H; try contradiction.
   - destruct st as [|[|] sn| | |]; simpl in *; try contradiction. discriminate.
   - destruct st as [|[|] [|]| | |]; simpl in *; try contradiction. discriminate.
   - destruct st as [|[|] sn| | |]; simpl in *; try contradiction. discriminate.
@@ -608,7 +689,7 @@ Qed.
 
 Lemma good2_spec : forall e st tr r, good2 e (st, tr, r) ->
   (r = None -> wf2 e st /\ pending e st <> []) /\
-  (r <> None -> done_st e st /\ inert st /\ pending e st = []).
+  (r <> None -> done_st e st /\ inert e st /\ pending e st = []).
 Proof.
   intros e st tr [o|] H; unfold good2 in H; split; intros H1; try discriminate; try congruence.
   - split; [exact H|]. split; [eapply done_inert; eauto|apply pending_done; exact H].
@@ -617,21 +698,21 @@ Qed.
 
 Theorem start_spec2 : forall e en cx st tr r, start e en cx = (st, tr, r) ->
   (r = None -> wf2 e st /\ pending e st <> []) /\
-  (r <> None -> done_st e st /\ inert st /\ pending e st = []).
+  (r <> None -> done_st e st /\ inert e st /\ pending e st = []).
 Proof.
   intros e en cx st tr r H. apply good2_spec with (tr := tr). rewrite <- H. apply spec_all.
 Qed.
 
 Theorem stop_spec2 : forall e st0 cx st tr r, wf2 e st0 -> stop e st0 cx = (st, tr, r) ->
   (r = None -> wf2 e st /\ pending e st <> []) /\
-  (r <> None -> done_st e st /\ inert st /\ pending e st = []).
+  (r <> None -> done_st e st /\ inert e st /\ pending e st = []).
 Proof.
   intros e st0 cx st tr r Hw H. apply good2_spec with (tr := tr). rewrite <- H. apply spec_all; exact Hw.
 Qed.
 
 Theorem leafev_spec2 : forall e st0 id o cx st tr r hit, wf2 e st0 -> leafev e st0 id o cx = ((st, tr, r), hit) ->
   (r = None -> wf2 e st /\ pending e st <> []) /\
-  (r <> None -> done_st e st /\ inert st /\ pending e st = []).
+  (r <> None -> done_st e st /\ inert e st /\ pending e st = []).
 Proof.
   intros e st0 id o cx st tr r hit Hw H. apply good2_spec with (tr := tr).
   change (st, tr, r) with (fst ((st, tr, r), hit)). rewrite <- H. apply spec_all; exact Hw.
@@ -667,15 +748,36 @@ Proof. induction tr as [|t tr IH]; simpl; auto. Qed.
 Lemma count_roots_skips : forall n, count_roots (repeat XSkip n) = 0%nat.
 Proof. induction n; simpl; auto. Qed.
 
-(* the run-level invariant *)
+Lemma sim_trans : forall e a b c, sim e a b -> sim e b c -> sim e a c.
+Proof.
+  induction e as [v|x| |n|id|id|id c0|id lvl| |id|k s IHs|k a0 IHa b0 IHb]; intros a b c [->|S1] [->|S2];
+    try (left; reflexivity); try (right; assumption); simpl in S1, S2; try contradiction.
+  destruct k; try contradiction.
+  destruct a as [| |na sa xa| |]; try contradiction. destruct xa; try contradiction.
+  destruct b as [| |nb sb xb| |]; try contradiction. destruct xb; try contradiction.
+  destruct c as [| |nc sc xc| |]; try contradiction. destruct xc; try contradiction.
+  destruct S1 as (E1 & S1). destruct S2 as (E2 & S2). right. simpl. split; [congruence|].
+  exact (IHs _ _ _ S1 S2).
+Qed.
+
+Lemma sim_fin : forall e st', sim e OFin st' -> st' = OFin.
+Proof.
+  intros e st' S. destruct e as [| | | | | | | | | |k s|]; simpl in S;
+    try (destruct S as [S|S]; [symmetry; exact S|contradiction]).
+  destruct S as [S|S]; [symmetry; exact S|]. destruct k; contradiction.
+Qed.
+
+(* the run-level invariant: live, root completed, or [stage 5] the root connect threw (nothing exists) *)
 Definition RInv2 (e : sexpr) (rs : run_state) : Prop :=
-  (r_roots rs = 0%nat /\ wf2 e (r_st rs)) \/ (r_roots rs = 1%nat /\ done_st e (r_st rs)).
+  (r_roots rs = 0%nat /\ cthrows e = false /\ wf2 e (r_st rs)) \/
+  (r_roots rs = 1%nat /\ done_st e (r_st rs)) \/
+  (r_roots rs = 0%nat /\ cthrows e = true /\ r_st rs = OFin).
 Definition TInv (rs : run_state) : Prop := count_roots (r_tr rs) = r_roots rs.
 
-Lemma absorb_RInv : forall e rs r cx, r_roots rs = 0%nat -> good2 e r -> RInv2 e (absorb rs r cx).
+Lemma absorb_RInv : forall e rs r cx, r_roots rs = 0%nat -> cthrows e = false -> good2 e r -> RInv2 e (absorb rs r cx).
 Proof.
-  intros e rs [[st tr] [o|]] cx H0 G; unfold good2 in G; unfold RInv2, absorb; simpl.
-  - right. rewrite H0. auto.
+  intros e rs [[st tr] [o|]] cx H0 C G; unfold good2 in G; unfold RInv2, absorb; simpl.
+  - right. left. rewrite H0. auto.
   - left. auto.
 Qed.
 
@@ -694,28 +796,37 @@ Proof.
 Qed.
 
 Lemma run_start_RInv : forall e pre, RInv2 e (run_start e pre).
-Proof. intros. unfold run_start. apply absorb_RInv; [reflexivity|apply spec_all]. Qed.
+Proof.
+  intros. unfold run_start. destruct (cthrows e) eqn:C.
+  - right. right. simpl. auto.
+  - apply absorb_RInv; [reflexivity|exact C|apply spec_all].
+Qed.
 
 Lemma run_start_TInv : forall e pre, TInv (run_start e pre).
-Proof. intros. unfold run_start. apply absorb_TInv. reflexivity. Qed.
+Proof.
+  intros. unfold run_start. destruct (cthrows e).
+  - unfold TInv. simpl. rewrite count_roots_app, count_roots_XT. reflexivity.
+  - apply absorb_TInv. reflexivity.
+Qed.
 
-(* after the root completed nothing happens any more: every script event is a skip (a first EvStop only
-   sets the flag) *)
-Lemma run_ev_fin : forall e rs ev, inert (r_st rs) ->
+(* after the root completed (or when nothing exists) nothing happens any more: every script event is a skip
+   (a first EvStop only sets the flag -- and marks itself in the node state of a completed allocate) *)
+Lemma run_ev_fin : forall e rs ev, done_st e (r_st rs) ->
   let rs' := run_ev e rs ev in
-  r_st rs' = r_st rs /\ r_roots rs' = r_roots rs /\ (r_tr rs' = r_tr rs \/ r_tr rs' = r_tr rs ++ [XSkip]).
+  sim e (r_st rs) (r_st rs') /\ done_st e (r_st rs') /\ r_roots rs' = r_roots rs /\
+  (r_tr rs' = r_tr rs \/ r_tr rs' = r_tr rs ++ [XSkip]).
 Proof.
   intros e rs ev H. destruct ev as [id o cx|cx|c]; simpl.
-  - rewrite leafev_inert by exact H. simpl. auto.
-  - destruct (r_stopped rs); simpl; auto.
-    rewrite stop_inert by exact H. simpl. rewrite app_nil_r. auto.
-  - destruct (dequeue c (r_queue rs)) as [[id q']|]; simpl; auto.
-    rewrite leafev_inert by exact H. simpl. auto.
+  - rewrite leafev_done by exact H. simpl. repeat split; auto. apply sim_refl.
+  - destruct (r_stopped rs); simpl; [repeat split; auto; apply sim_refl|].
+    destruct (stop_done e (r_st rs) cx H) as (st' & E & S & D). rewrite E. simpl. rewrite app_nil_r. auto.
+  - destruct (dequeue c (r_queue rs)) as [[id q']|]; simpl; [|repeat split; auto; apply sim_refl].
+    rewrite leafev_done by exact H. simpl. repeat split; auto. apply sim_refl.
 Qed.
 
 Lemma run_ev_RInv : forall e rs ev, RInv2 e rs -> RInv2 e (run_ev e rs ev).
 Proof.
-  intros e rs ev [(H0 & Hw)|(H1 & Hf)].
+  intros e rs ev [(H0 & C & Hw)|[(H1 & Hf)|(H0 & C & Hf)]].
   - destruct ev as [id o cx|cx|c]; simpl.
     + pose proof (proj2 (proj2 (spec_all e)) _ id o cx Hw) as G.
       destruct (leafev e (r_st rs) id o cx) as [r hit]. simpl in G.
@@ -724,7 +835,7 @@ Proof.
       * left. simpl. auto.
     + destruct (r_stopped rs).
       * left. simpl. auto.
-      * apply absorb_RInv; [assumption|]. simpl. apply spec_all. exact Hw.
+      * apply absorb_RInv; [assumption|assumption|]. simpl. apply spec_all. exact Hw.
     + destruct (dequeue c (r_queue rs)) as [[id q']|].
       * pose proof (proj2 (proj2 (spec_all e)) _ id (OVal 0%Z) c Hw) as G.
         destruct (leafev e (r_st rs) id (OVal 0%Z) c) as [r hit]. simpl in G.
@@ -732,7 +843,11 @@ Proof.
         -- apply absorb_RInv; assumption.
         -- left. simpl. auto.
       * left. simpl. auto.
-  - destruct (run_ev_fin e rs ev (done_inert _ _ Hf)) as (A & B & _). right. rewrite A, B. auto.
+  - destruct (run_ev_fin e rs ev Hf) as (_ & D & B & _). right. left. rewrite B. auto.
+  - assert (done_st e (r_st rs)) as D0 by (rewrite Hf; apply done_fin).
+    destruct (run_ev_fin e rs ev D0) as (S & _ & B & _). right. right. rewrite B.
+    split; [assumption|]. split; [assumption|].
+    rewrite Hf in S. exact (sim_fin _ _ S).
 Qed.
 
 Lemma run_ev_TInv : forall e rs ev, TInv rs -> TInv (run_ev e rs ev).
@@ -777,19 +892,19 @@ Proof.
     exists (s1 ++ s2). rewrite E2, E1, app_assoc. reflexivity.
 Qed.
 
-Lemma fold_fin : forall e script rs, inert (r_st rs) ->
+Lemma fold_fin : forall e script rs, done_st e (r_st rs) ->
   let rs' := fold_left (run_ev e) script rs in
-  r_st rs' = r_st rs /\ r_roots rs' = r_roots rs /\
+  sim e (r_st rs) (r_st rs') /\ done_st e (r_st rs') /\ r_roots rs' = r_roots rs /\
   exists n, (n <= length script)%nat /\ r_tr rs' = r_tr rs ++ repeat XSkip n.
 Proof.
   induction script as [|ev script IH]; simpl; intros rs H.
-  - repeat split; auto. exists 0%nat. simpl. rewrite app_nil_r. auto.
-  - destruct (run_ev_fin e rs ev H) as (A & B & C).
-    assert (inert (r_st (run_ev e rs ev))) as H' by (rewrite A; exact H).
-    destruct (IH _ H') as (A' & B' & n & Hn & E). repeat split; auto; try congruence.
-    destruct C as [C|C]; rewrite C in E.
-    + exists n. split; [lia|exact E].
-    + exists (S n). split; [lia|]. rewrite E, <- app_assoc. reflexivity.
+  - repeat split; auto; [apply sim_refl|]. exists 0%nat. simpl. rewrite app_nil_r. auto.
+  - destruct (run_ev_fin e rs ev H) as (A & D & B & C).
+    destruct (IH _ D) as (A' & D' & B' & n & Hn & E). repeat split; auto; try congruence.
+    + eapply sim_trans; eassumption.
+    + destruct C as [C|C]; rewrite C in E.
+      * exists n. split; [lia|exact E].
+      * exists (S n). split; [lia|]. rewrite E, <- app_assoc. reflexivity.
 Qed.
 
 Lemma run_inv : forall e pre script, RInv2 e (run e pre script) /\ TInv (run e pre script).
@@ -813,6 +928,9 @@ Lemma run_end_st : forall e rs,
   r_st (run_end e rs) = match r_roots rs with O => r_st rs | S _ => OFin end.
 Proof. intros. unfold run_end. destruct (r_roots rs); reflexivity. Qed.
 
+Lemma RInv2_roots : forall e rs, RInv2 e rs -> r_roots rs = 0%nat \/ r_roots rs = 1%nat.
+Proof. intros e rs [(H & _)|[(H & _)|(H & _)]]; auto. Qed.
+
 (* at most one root completion, and the trace agrees with the counter *)
 Theorem C01_2_at_most_once : forall e pre script,
   (r_roots (exec e pre script) <= 1)%nat /\
@@ -826,17 +944,18 @@ Proof.
                       end = 0%nat) as Z.
   { destruct (r_roots (run e pre script)); [reflexivity|].
     change (XRootDtor :: ?l) with ([XRootDtor] ++ l). rewrite count_roots_app, count_roots_XT. reflexivity. }
-  rewrite Z. destruct R as [(H & _)|(H & _)]; rewrite H; split; lia.
+  rewrite Z. destruct (RInv2_roots _ _ R) as [H|H]; rewrite H; split; lia.
 Qed.
 
-(* the trace starts empty, start produces at most one root completion, later events only append *)
+(* the trace starts with start()'s events, start produces at most one root completion, later events only append *)
 Theorem C01_2_root_after_start : forall e pre,
   (count_roots (r_tr (run e pre [])) <= 1)%nat /\
   (forall s1 s2, exists suf, r_tr (run e pre (s1 ++ s2)) = r_tr (run e pre s1) ++ suf) /\
   (forall s1 s2, (r_roots (run e pre s1) <= r_roots (run e pre (s1 ++ s2)))%nat).
 Proof.
   intros e pre. split; [|split].
-  - destruct (run_inv e pre []) as ([(H & _)|(H & _)] & T); unfold TInv in T; rewrite T, H; lia.
+  - destruct (run_inv e pre []) as (R & T); unfold TInv in T; rewrite T.
+    destruct (RInv2_roots _ _ R) as [H|H]; rewrite H; lia.
   - intros. rewrite run_app. apply fold_tr.
   - intros s1 s2.
     destruct (run_inv e pre s1) as (_ & B1). destruct (run_inv e pre (s1 ++ s2)) as (_ & B2).
@@ -845,27 +964,32 @@ Proof.
 Qed.
 
 (* no lost completion: as long as the root has not completed the operation is live and waits for a leaf,
-   a queued item or a held completion; once it has, the root operation is completed (before the owner
-   destroys it) resp. gone (after) and nothing is pending *)
+   a queued item or a held completion -- unless [stage 5] connecting the expression threw, then nothing exists;
+   once the root completed, the root operation is completed (before the owner destroys it) resp. gone (after)
+   and nothing is pending *)
 Theorem C01_2_no_lost_run : forall e pre script,
   let rs := run e pre script in
-  (r_roots rs = 0%nat -> wf2 e (r_st rs) /\ pending e (r_st rs) <> []) /\
-  (r_roots rs = 1%nat -> done_st e (r_st rs) /\ inert (r_st rs) /\ pending e (r_st rs) = []).
+  (r_roots rs = 0%nat ->
+     if cthrows e then r_st rs = OFin else wf2 e (r_st rs) /\ pending e (r_st rs) <> []) /\
+  (r_roots rs = 1%nat -> done_st e (r_st rs) /\ inert e (r_st rs) /\ pending e (r_st rs) = []).
 Proof.
-  intros e pre script rs. destruct (run_inv e pre script) as ([(H & W)|(H & F)] & _); fold rs in H, W || fold rs in H, F.
-  - split; intros H'; [|congruence]. split; [exact W|apply no_lost2, W].
+  intros e pre script rs. destruct (run_inv e pre script) as ([(H & C & W)|[(H & F)|(H & C & F)]] & _);
+    fold rs in H; try fold rs in W; try fold rs in F.
+  - split; intros H'; [|congruence]. rewrite C. split; [exact W|apply no_lost2, W].
   - split; intros H'; [congruence|]. split; [exact F|]. split; [eapply done_inert; eauto|apply pending_done, F].
+  - split; intros H'; [|congruence]. rewrite C. exact F.
 Qed.
 
 Theorem C01_2_no_lost : forall e pre script,
   let rs := exec e pre script in
-  (r_roots rs = 0%nat -> wf2 e (r_st rs) /\ pending e (r_st rs) <> []) /\
+  (r_roots rs = 0%nat ->
+     if cthrows e then r_st rs = OFin else wf2 e (r_st rs) /\ pending e (r_st rs) <> []) /\
   (r_roots rs = 1%nat -> r_st rs = OFin /\ pending e (r_st rs) = []).
 Proof.
   intros e pre script. cbv zeta. rewrite exec_run, run_end_roots, run_end_st.
   destruct (C01_2_no_lost_run e pre script) as (A & B). split; intros H; rewrite H in *.
   - apply A. reflexivity.
-  - split; [reflexivity|]. apply pending_inert. exact I.
+  - split; [reflexivity|]. apply pending_done, done_fin.
 Qed.
 
 (* silent after completion: once the root completed, every further script event is a skip; the owner's
@@ -874,16 +998,16 @@ Theorem C01_2_silent_after : forall e pre script script2,
   r_roots (run e pre script) = 1%nat ->
   let rs := run e pre script in
   let rs' := run e pre (script ++ script2) in
-  r_roots rs' = 1%nat /\ r_st rs' = r_st rs /\
+  r_roots rs' = 1%nat /\ sim e (r_st rs) (r_st rs') /\
   exists n, (n <= length script2)%nat /\ r_tr rs' = r_tr rs ++ repeat XSkip n /\
     r_tr (exec e pre (script ++ script2)) =
       r_tr rs ++ repeat XSkip n ++ XRootDtor :: map XT (dtor e (r_st rs)) /\
     r_st (exec e pre (script ++ script2)) = OFin.
 Proof.
   intros e pre script script2 H rs rs'. subst rs rs'. rewrite exec_run, run_end_tr, run_end_st, run_app.
-  destruct (C01_2_no_lost_run e pre script) as (_ & F). destruct (F H) as (_ & F' & _).
-  destruct (fold_fin e script2 _ F') as (A & B & n & Hn & C). rewrite B, H.
-  repeat split; auto. exists n. repeat split; auto. rewrite C, A, <- app_assoc. reflexivity.
+  destruct (C01_2_no_lost_run e pre script) as (_ & F). destruct (F H) as (F' & _).
+  destruct (fold_fin e script2 _ F') as (A & D & B & n & Hn & C). rewrite B, H.
+  repeat split; auto. exists n. repeat split; auto. rewrite C, (sim_dtor _ _ _ A), <- app_assoc. reflexivity.
 Qed.
 
 Theorem C01_2_dead_after_end : forall e pre script script3,
@@ -895,6 +1019,28 @@ Proof.
   intros e pre script script3 H rs'. subst rs'.
   assert (r_st (exec e pre script) = OFin) as F.
   { rewrite exec_run, run_end_st. rewrite exec_run, run_end_roots in H. rewrite H. reflexivity. }
-  assert (inert (r_st (exec e pre script))) as F' by (rewrite F; exact I).
-  destruct (fold_fin e script3 _ F') as (A & B & C). repeat split; auto; congruence.
+  assert (done_st e (r_st (exec e pre script))) as F' by (rewrite F; apply done_fin).
+  destruct (fold_fin e script3 _ F') as (A & D & B & C). repeat split; auto; try congruence.
+  rewrite F in A. exact (sim_fin _ _ A).
+Qed.
+
+(* [stage 5] connecting the whole expression threw: nothing exists, nothing runs, every script event is skipped *)
+Theorem C01_2_connect_throw : forall e pre script,
+  cthrows e = true ->
+  exec e pre script = run e pre script /\ r_roots (run e pre script) = 0%nat /\ r_st (run e pre script) = OFin /\
+  exists n, (n <= length script)%nat /\
+    r_tr (run e pre script) = map XT (fst (conn e 0)) ++ XConnectThrow :: repeat XSkip n.
+Proof.
+  intros e pre script C.
+  assert (S0 : run_start e pre = {| r_st := OFin; r_stopped := pre; r_roots := 0;
+                                   r_tr := map XT (fst (conn e 0)) ++ [XConnectThrow]; r_queue := [] |}).
+  { unfold run_start. rewrite C. reflexivity. }
+  assert (done_st e (r_st (run_start e pre))) as D0 by (rewrite S0; apply done_fin).
+  destruct (fold_fin e script _ D0) as (A & D & B & n & Hn & E). fold (run e pre script) in A, D, B, E.
+  rewrite S0 in A, B, E. simpl in A, B, E.
+  assert (r_st (run e pre script) = OFin) as F.
+  { exact (sim_fin _ _ A). }
+  split; [|split; [exact B|split; [exact F|]]].
+  - rewrite exec_run. unfold run_end. rewrite B. reflexivity.
+  - exists n. split; [exact Hn|]. rewrite E, <- app_assoc. reflexivity.
 Qed.
